@@ -247,6 +247,51 @@ impl Family for LargeResponse {
     }
 }
 
+/// responses whose total size passes 2^15 / 2^16 / 2^20 bytes in many packets
+struct Bulky;
+const BULK: [(usize, usize); 6] = [(5, 20_000), (40, 2_000), (300, 300), (2_000, 40), (70, 1_000), (9, 131_072)];
+impl Family for Bulky {
+    fn name(&self) -> String {
+        "bulky-responses".into()
+    }
+    fn len(&self) -> u64 {
+        (BULK.len() * 4) as u64
+    }
+    fn run(&self, idx: u64, st: &mut Stats) -> Result<(), Violation> {
+        let (rows, w) = BULK[idx as usize / 4];
+        let id = [0u8, 1, 200, 255][idx as usize % 4];
+        st.nontrivial += 1;
+        st.bump("bulky_responses");
+        let cols = Arc::new(vec![col("c", ColumnType::MYSQL_TYPE_BLOB, ColumnFlags::empty())]);
+        let mut p = vec![WOp::Start(cols)];
+        for r in 0..rows {
+            p.push(WOp::WriteRow(vec![Val::Bytes(vec![b'a' + (r % 26) as u8; w])]));
+        }
+        p.push(WOp::Finish);
+        let prog = Arc::new(p);
+        let conv = Conv::new(vec![q(b"bulk").seq(id), ping().seq(id.wrapping_add(3))]);
+        let s = conv.stream();
+        let stream = Arc::new(s.bytes);
+        let mut sim = sim_for(&stream, vec![]);
+        sim.log_ops = false;
+        let o = run_conn(sim, ConnCfg::new(Box::new(move |_, cb| match cb {
+            Cb::Query(_) => Behavior::Prog(prog.clone()),
+            _ => Behavior::Silent,
+        })));
+        if !o.res.is_ok() {
+            return Err(Violation::new("result-not-ok", format!("run_on returned {}", o.res.short())));
+        }
+        let d = decode_all(&o.sim.out, &conv, &s.last_seq, 2, false).map_err(seq_violation)?;
+        st.transitions += d.n_pkts as u64;
+        Ok(())
+    }
+    fn describe(&self, idx: u64) -> J {
+        let (rows, w) = BULK[idx as usize / 4];
+        let id = [0u8, 1, 200, 255][idx as usize % 4];
+        json!({"rows": rows, "cell_bytes": w, "request_sequence_id": id})
+    }
+}
+
 pub fn build(quick: bool) -> Check {
     let all_ids: Vec<u8> = (0..=255u8).collect();
     let all_lens: Vec<usize> = std::iter::once(1).chain(4..=520).collect();
@@ -277,6 +322,7 @@ pub fn build(quick: bool) -> Check {
         firsts: if quick { vec![0, 254, 255] } else { vec![0, 1, 253, 254, 255] },
         nfrag: if quick { vec![2] } else { vec![2, 3] },
     }));
+    families.push(Box::new(Bulky));
     families.push(Box::new(LargeResponse {
         ids: if quick { vec![0, 253] } else { vec![0, 1, 251, 252, 253, 254, 255] },
         sizes: if quick { vec![2 * MAXP + 10] } else { vec![MAXP + 10, 2 * MAXP + 10, 3 * MAXP + 10] },
@@ -284,12 +330,12 @@ pub fn build(quick: bool) -> Check {
     Check {
         id: "C05",
         level: "model_checking",
-        rule: "request sequence id x response length (1 and 4..520 packets, text and binary), each followed by a second command with an unrelated id; handshake responses with every id; 2- and 3-fragment requests starting at ids around the wrap; responses whose single row spans 2..4 maximal packets. Oracle: packet i of a reply carries (last request id + 1 + i) mod 256. Non-trivial = request id != 0 (the only id the test clients use).".into(),
+        rule: "request sequence id x response length (1 and 4..520 packets, text and binary), each followed by a second command with an unrelated id; handshake responses with every id; 2- and 3-fragment requests starting at ids around the wrap; responses whose single row spans 2..4 maximal packets; responses of 40 KiB..1 MiB in 5..2000 packets. Oracle: packet i of a reply carries (last request id + 1 + i) mod 256. Non-trivial = request id != 0 (the only id the test clients use).".into(),
         assumptions: vec!["sequence ids of server packets are read by the independent framer (refwire)".into()],
         bounds: json!({"max_response_packets": 520, "fragments": if quick {2} else {3}}),
         exhaustive: true,
         caps_hit: vec![],
         families,
-        required: vec!["request_id_255", "replies_wrapping_past_255", "fragmented_requests", "large_response_messages"],
+        required: vec!["request_id_255", "replies_wrapping_past_255", "fragmented_requests", "large_response_messages", "bulky_responses"],
     }
 }
